@@ -1,5 +1,5 @@
 // C11 known finding - native reproduction against the real headers.
-//   g++ -std=c++20 -I/repo/src -pthread c11_stopped_pool.cpp && ./a.out [all|run_async|resume_sp|run_async_queued|resume_sp_queued]
+//   g++ -std=c++20 -I/repo/src -pthread c11_stopped_pool.cpp && ./a.out [all|run_async|resume_sp|run_async_queued|resume_sp_queued|pool_call]
 // thread_pool::resume(suspend_point&) and thread_pool::run(async<T>) wrap the raw coroutine handle in a plain closure `[h]{coro_queue::resume(h);}`.
 // If the pool is stopped - enqueue() rejects the closure, or stop() swaps the queue out and destroys it un-run - the coroutine is neither
 // resumed nor cancelled: the future returned by run(async) stays pending forever, the coroutine frame (and everything it owns) leaks.
@@ -72,6 +72,20 @@ template<typename Submit> static void queued_then_stop(const char *what, Submit 
     if (has_future) wait_for([&]{ return !f->pending(); }, 300); else wait_for([&]{ return g_ran.load() != 0 || g_frames_destroyed.load() != 0; }, 300);
     verdict(what, has_future && f->pending(), g_ran.load(), g_frames_destroyed.load());
 }
+// (5) co_await pool(awaitable): the awaited future is resolved after the pool was stopped; the continuation goes through resume(suspend_point)
+static std::atomic<int> g_cont{0};
+static async<void> hop_after(thread_pool &p, future<int> &f) { FrameGuard g; try { (void)co_await p(f); g_ran++; } catch (...) { g_cont++; } co_return; }
+static void pool_call_stopped() {
+    g_ran = 0; g_frames_destroyed = 0; g_cont = 0;
+    auto *pool = new thread_pool(1);
+    auto *f = new future<int>();
+    auto pr = f->get_promise();
+    hop_after(*pool, *f).detach();                   // suspends on the future
+    pool->stop();
+    pr(42);                                           // resolution -> perform_resume -> pool.resume(suspend_point) -> closure rejected
+    wait_for([&]{ return g_ran.load() != 0 || g_cont.load() != 0 || g_frames_destroyed.load() != 0; }, 300);
+    verdict("co_await pool(future), pool stopped before resolution", false, g_ran.load() + g_cont.load(), g_frames_destroyed.load());
+}
 // contrast: run(fn) and co_await pool on a stopped pool are cancelled observably
 static std::atomic<int> g_canceled{0};
 static async<void> hop(thread_pool &p) { try { co_await p; } catch (const await_canceled_exception &) { g_canceled++; } co_return; }
@@ -98,6 +112,7 @@ int main(int argc, char **argv) {
         queued_then_stop("run(async) queued, then stop()", [](thread_pool &p){ return new future<int>(p.run(coro_int(1))); }, true);
     if (all || !std::strcmp(mode, "resume_sp") || !std::strcmp(mode, "resume_sp_queued"))
         queued_then_stop("resume(suspend_point) queued, then stop()", [](thread_pool &p){ suspend_point<void> sp = coro_void().detach(); p.resume(sp); return (future<int> *)nullptr; }, false);
+    if (all || !std::strcmp(mode, "resume_sp") || !std::strcmp(mode, "pool_call")) pool_call_stopped();
     if (all) contrast();
     std::printf("%s\n", lost ? "RESULT: the real code loses submissions on a stopped pool" : "RESULT: every submission ran once or was cancelled observably");
     std::fflush(stdout);
